@@ -5,22 +5,36 @@ from tools.harness import common, route as R
 ID = 'C10'
 TARGETS = ['MindsVerif.Props.C10']
 THEOREMS = ['MindsVerif.Props.C10.' + n for n in (
-    'C10_case_insensitive', 'C10_catalog_names_dicts', 'C10_catalog_case', 'C10_catalog_none',
-    'C10_catalog_legacy_list', 'C10_resolvers', 'C10_resolvers_same', 'C10_regression_1', 'C10_regression_2',
-    'C10_old_resolver_partial', 'C10_resolvers_catalog', 'C10_regression_6', 'C10_catalog_default_case', 'C10_partial_stripped', 'C10_partial_stripped_today', 'C10_stripped_exact', 'C10_partial_pushdown',
-    'C10_witness_3', 'C10_pushdown_full_false', 'C10_witness_5', 'C10_stripped_full_false',
-    'C10_model_version', 'C10_model_no_hidden_state', 'C10_model_versions_independent', 'C10_model_noversion', 'C10_model_step_simple', 'C10_model_case',
-    'C10_model_join', 'C10_model_join_project', 'C10_model_join_project_default', 'C10_regression_4', 'C10_main')]
+    # T10.1 catalog normal form, case-insensitivity
+    'C10_case_insensitive', 'C10_catalog_names_dicts', 'C10_catalog_case', 'C10_catalog_default_case', 'C10_catalog_none',
+    'C10_catalog_legacy_list',
+    # T10.2 the two resolvers (independent transcriptions) and the join operand's route
+    'C10_resolvers', 'C10_resolvers_same', 'C10_resolvers_catalog', 'C10_resolve_table_bare', 'C10_resolve_table_aliases',
+    'C10_resolve_table_sub',
+    # T10.3 stripping and whole-query pushdown
+    'C10_partial_stripped', 'C10_partial_stripped_no_names', 'C10_stripped_exact', 'C10_partial_pushdown',
+    'C10_pushdown_full_false', 'C10_witness_5', 'C10_stripped_full_false',
+    # T10.4 models
+    'C10_model_version', 'C10_model_noversion', 'C10_model_step_simple', 'C10_model_case', 'C10_model_join',
+    'C10_model_join_project', 'C10_model_join_project_default', 'C10_model_no_hidden_state', 'C10_model_versions_independent',
+    'C10_main',
+    # regression examples about older variants of the code (every finding they document is repaired)
+    'C10_regression_1', 'C10_regression_2', 'C10_regression_3', 'C10_regression_4', 'C10_regression_6',
+    'C10_old_resolver_partial')]
 ASSUME = [
-    'QueryPlanner.__init__, resolve_database_table, PlanJoinTablesQuery.resolve_table/process_table, get_predictor, '
-    'get_query_info, check_single_integration, prepare_integration_select are hand-modelled (Model/Route.lean); '
-    'tie = the catalog / route / plan / strip correspondence streams of this run',
-    'the walker is modelled only for callbacks that never replace a node; which children of a node are visited, in which '
-    'role, is supplied by tools/harness/route.py:walker_children (a transcription of query_traversal), checked by the '
-    'plan / strip streams against the real walker',
+    'QueryPlanner.__init__, resolve_database_table, PlanJoinTablesQuery.resolve_table (own transcription: integration, rest, '
+    'aliases, bare-name flag) / process_table, get_predictor, get_query_info, both check_single_integration with the '
+    'CTE-capture guard, prepare_integration_select are hand-modelled (Model/Route.lean); tie = the cat / route / predseq / '
+    'plan / strip correspondence streams of this run; the planner must follow the live model variant (corr:route-variant)',
+    'the walker is modelled only for callbacks that never replace a node; which children a node has and in which role is '
+    'transcribed in tools/harness/route.py:walker_children, which clauses of Select / Join / Update / Case are visited and in '
+    'which order is probed from the live query_traversal; both are checked by the plan / strip streams (visit log with the real walker)',
+    'hypothesis skipLeafOnly of C10_partial_pushdown is checked on every generated tree (hyp:skipLeafOnly)',
+    'C10_model_no_hidden_state holds by construction of the model (a map); the predseq stream (one real planner, a sequence '
+    'of model references) is what ties it to the code',
     'names are ASCII: str.lower / str.isdigit on non-ASCII text are not modelled',
-    'theorems cover resolvers, catalog normalisation, the pushdown decision and the stripping; the rest of plan_select '
-    '(sub-select planning, join planner bookkeeping) is covered by the impl-level routing oracle only',
+    'theorems cover catalog normalisation, the resolvers, model look-up, the pushdown decision and the stripping; the rest of '
+    'plan_select (sub-select / CTE / nested-select planning, join planner bookkeeping) is covered by the impl-level routing oracle only',
 ]
 
 VOCAB = ['int1', 'INT1', 'Int1', 'int2', 'INT2', 'mindsdb', 'MINDSDB', 'MindsDB', 'proj', 'PROJ', 'Proj', 'files', 'views',
@@ -358,8 +372,10 @@ def run(chk):
         parts = [rng.choice(VOCAB) for _ in range(n)]
         if any(p == '' for p in parts) and rng.random() < 0.8:
             parts = [p or 'e' for p in parts]
-        lines.append(json.dumps(dict(op='route', cat=c.model(), parts=[R.enc(p) for p in parts])))
-        metas.append(('route', c, parts))
+        alias = [rng.choice(['a', 'B', 'Int1'])] if rng.random() < 0.3 else None
+        lines.append(json.dumps(dict(op='route', cat=c.model(), parts=[R.enc(p) for p in parts],
+                                     alias=None if alias is None else [R.enc(a) for a in alias])))
+        metas.append(('route', c, (parts, alias)))
     # ---- correspondence b2: ONE planner resolves a sequence of model references; each answer must be what the
     # (stateless) model gives for that reference alone — no hidden state between references
     seqs = {}
@@ -471,7 +487,12 @@ def run(chk):
                 if canon_catalog(real) != canon_catalog(mod):
                     why = dict(catalog=c.kwargs(), impl=real, model=mod)
             elif op == 'route':
+                arg, alias = arg
                 real, mod = R.real_route(c, arg), R.model_route(o)
+                # resolve_table is transcribed on its own (Model.resolveTable): integration, rest, aliases, bare-name flag
+                rti, mti = R.real_table_info(c, arg, alias), R.model_table_info(o['tableInfo'])
+                if rti != mti and arg and all(arg):
+                    why = dict(catalog=c.kwargs(), parts=arg, alias=alias, field='resolve_table (TableInfo)', impl=rti, model=mti)
                 for key in ('simple', 'join', 'routeSimple', 'routeJoin', 'pred', 'predSimple', 'predJoin'):
                     if real[key] != mod[key]:
                         why = dict(catalog=c.kwargs(), parts=arg, field=key, impl=real[key], model=mod[key])
@@ -525,7 +546,7 @@ def run(chk):
     for c, sql, kind, feats in stmts[:3]:
         chk.samples.append(dict(sql=sql, catalog=c.kwargs(), features=feats))
     chk.samples.append(dict(theorem='C10_resolvers : ∀ c parts, defaultOk c → parts ≠ [] → routeJoinOperand c parts = routeSimple c parts'))
-    chk.samples.append(dict(theorem='C10_partial_pushdown : noSkip q → planTop c ctes q = some steps → ∃ i, steps = [fetch i (strip i q)] ∧ ∀ parts ∈ allTables q, belongs c ctes i parts'))
+    chk.samples.append(dict(theorem='C10_partial_pushdown : skipLeafOnly q → planTop c ctes q = some steps → ∃ i, steps = [fetch i (strip i q)] ∧ ∀ parts ∈ allTables q, belongs c ctes i parts'))
     return chk.finish(assumptions=ASSUME)
 
 
